@@ -78,15 +78,20 @@ _DP_NT = ["dp:step:transmit", "dp:step:reply", "dp:step:timeout"]  # callbacks e
 _DP_ASSUME = ["histories allowed by the FdlApplication contract (C15)", "bytes 0..255, addresses 0..125, max_retry_limit 1..15 (ParametersBuilder bounds)"]
 
 PROPS["C03"] = _dp("C03", _DP_RULE, "phase 1: model + correspondence + executable monitor; one-step theorems",
-                   "Phase 1: executable Coq model of the DP master tied by transcript replay, bring-up monitor run on every implementation transcript; "
-                   "one-step theorems about the Set_Prm / Chk_Cfg request bytes.", _DP_ASSUME, _DP_NT)
+                   "Phase 1: executable Coq model of the DP master tied by transcript replay, bring-up monitor (DpOracle.c03_monitor) run on every implementation transcript; "
+                   "one-step theorems over all peripheral states: C03_set_prm_bytes, C03_chk_cfg_bytes, C03_dx_only_in_data_exchange, C03_watchdog_factors. "
+                   "Missing for a claim: C03_order (the monitor accepts every history of the model).", _DP_ASSUME, _DP_NT)
 PROPS["C04"] = _dp("C04", _DP_RULE, "phase 1: model + correspondence + executable monitor; one-step theorems",
-                   "Phase 1: model, correspondence, process-image monitor on every implementation transcript; one-step frame theorem for pi_i.", _DP_ASSUME, _DP_NT)
+                   "Phase 1: model, correspondence, process-image monitor (DpOracle.c04_monitor) on every implementation transcript; one-step theorems over all states: "
+                   "C04_pi_i_frame, C04_request_carries_pi_q. Missing for a claim: C04_event_iff, C04_others_untouched (master level), C04_end_to_end.", _DP_ASSUME, _DP_NT)
 PROPS["C07"] = _dp("C07", _DP_RULE, "phase 1: model + correspondence + executable recovery monitor",
-                   "Phase 1: model, correspondence, bounded-recovery monitor on fault histories followed by a fault-free tail.", _DP_ASSUME, _DP_NT)
+                   "Phase 1: model, correspondence, bounded-recovery monitor (DpOracle.c07_monitor, bound max_retry+16 cycles) on fault histories followed by a fault-free tail; "
+                   "one-step theorems C07_offline_reported, C07_reply_never_counts. Known finding F15 (class DpOracle.c07_known_f15). Missing for a claim: C07_recovery over the joint system.", _DP_ASSUME, _DP_NT)
 PROPS["C08"] = _dp("C08", _DP_RULE, "phase 1: model + correspondence + executable wire monitor; one-step theorems",
-                   "Phase 1: model, correspondence, frame-count-bit / retry monitor per destination on every implementation transcript; one-step theorems.", _DP_ASSUME, _DP_NT)
+                   "Phase 1: model, correspondence, frame-count-bit / retry monitor per destination (DpOracle.c08_monitor) on every implementation transcript; one-step theorems over all states: "
+                   "C08_first_offline, C08_first_probe, C08_toggle_after_accept, C08_transmit_step. Missing for a claim: the history theorems (monitor accepts every history of the model).", _DP_ASSUME, _DP_NT)
 PROPS["C14"] = _dp("C14", _DP_RULE, "phase 1: model + correspondence + executable cycle/event monitor; termination theorem",
-                   "Phase 1: model, correspondence, cycle and event life-cycle monitor; theorem that transmit_telegram's loop ends within #slots+2 iterations.", _DP_ASSUME, _DP_NT)
+                   "Phase 1: model, correspondence, cycle and event life-cycle monitor (DpOracle.c14_monitor); C14_turn_ends / C14_loop_bound: transmit_telegram returns within #slots+2 loop iterations for every master state. "
+                   "Missing for a claim: C14_one_turn_each, C14_cycle_completed_once, C14_no_event_lost, C14_lifecycle.", _DP_ASSUME, _DP_NT)
 
 NOT_CLAIMED = {}
